@@ -155,7 +155,7 @@ def categories_from_short_report(stdout):
 
 def run_shard(args):
     tier = args.tier
-    nproj = {"quick": 2, "thorough": 90}[tier]
+    nproj = {"quick": 2, "thorough": 40}[tier]
     os.environ["TMPDIR"] = str(common.tmp_root())
     import tempfile
 
